@@ -256,6 +256,8 @@ func genC06(t *rapid.T) c06Case {
 				lines = append(lines, k+"="+dotenvQuote(v))
 			}
 		}
+		// a variable only the included projects define: the including project must not see it
+		lines = append(lines, "ONLY_INCLUDED=from-included-env")
 		envContent := strings.Join(lines, "\n") + "\n"
 		pd := baseDir(g)
 		if gr.envFile {
@@ -320,7 +322,15 @@ func genC06(t *rapid.T) c06Case {
 		pdoc := groups[gr.parent].doc
 		pdoc["include"] = append(anyList(pdoc["include"]), entry)
 	}
-	cs.Distributed = append(cs.Distributed, memFile{Name: "compose.yaml", Content: emitYAML(groups[0].doc, nil)})
+	mainText := emitYAML(groups[0].doc, nil)
+	if rapid.IntRange(0, 2).Draw(t, "afterdoc") == 0 {
+		// content of the including project that is interpolated after the include was applied
+		after := map[string]any{"image": "busybox", "hostname": "${ONLY_INCLUDED:-parent-does-not-see-it}", "labels": map[string]any{"seen": "x${ONLY_INCLUDED}x"}}
+		mainText += "---\n" + emitYAML(map[string]any{"services": map[string]any{"after-include": after}}, nil)
+		put(pasted, "services", "after-include", map[string]any{"image": "busybox", "hostname": "parent-does-not-see-it", "labels": map[string]any{"seen": "xx"}})
+		cs.Features = append(cs.Features, "document-after-include")
+	}
+	cs.Distributed = append(cs.Distributed, memFile{Name: "compose.yaml", Content: mainText})
 	// the pasted document carries the literal values
 	for g := 1; g <= ngroups; g++ {
 		for k, v := range groups[g].defs {
